@@ -869,8 +869,9 @@ def check(ctx):
     check_fingerprint(ix, rep)
     check_mpstate(ix, rep)
     check_opstate(ix, rep)
-    from .c05_extra import extra, order_and_stale
+    from .c05_extra import extra, memo_hash, order_and_stale
 
     extra(ctx, rep)
     order_and_stale(ctx, rep)
+    memo_hash(ctx, rep)
     return rep
